@@ -325,7 +325,10 @@ Section Filters.
     comp_match_body NCal (fun n => negb (cname_eqb n NCal))
       (fun child => match child with
                     | EPropFilter p => Some (prop_match p it)
-                    | ETimeRange _ => None             (* getattr(vobject_item, "vcalendar") -> AttributeError *)
+                    | ETimeRange _ =>                  (* time_range_match(vobject_item, filter_[0], "VCALENDAR"): *)
+                        if tr_bounded (first_child_range children)
+                        then None                      (* getattr(vobject_item, "vcalendar") -> AttributeError *)
+                        else Some false                (* no start and no end: False before anything is read *)
                     | ECompFilter n ch => comp_match1 it n ch
                     | _ => None
                     end) name children.
